@@ -159,8 +159,8 @@ Proof.
   rewrite Ep. fold (rd w). rewrite Hna.
   destruct (Hd_service w (conj Hcw Hq)) as [Ht Hmq]. unfold service. rewrite Ht, Hmq, upd_sess_id, Hn. cbn [orb].
   rewrite ?Hn. unfold next_deadline. rewrite Hnp, Hpt. rewrite Hl. cbn [negb].
-  cbn [fill_packet_reader]. fold (rd w). rewrite Hna, (fresh_rb (rd w) Hrd Hrp Hcap). unfold rd. rewrite set_reader_id, upd_sess_id.
-  change (1 =? 0) with false. cbv iota.
+  unfold fill_packet_reader. cbn [fill_go]. fold (rd w). rewrite Hna, (fresh_rb (rd w) Hrd Hrp Hcap). unfold rd. rewrite set_reader_id, upd_sess_id.
+  change (1 =? 0) with false. cbv iota. change (timer_fired false ?dd ?ww) with false. cbv iota.
   destruct (io_read_timeout 1 d w ltac:(discriminate) Hs Hi Hlt Hwt) as [w1 [Er [S1 [C1 [Q1 [N1 [L1 [W1 _]]]]]]]].
   rewrite Er.
   (* ---- second pass, at the deadline: the PINGREQ is queued, written and flushed ---- *)
@@ -235,8 +235,8 @@ Proof.
   { unfold next_deadline. rewrite Hpt. destruct (rt_next_ping (s_rt (w_sess w))) as [d|] eqn:E; [|reflexivity].
     specialize (Hnp d eq_refl). f_equal. lia. }
   rewrite Hdl, Hl. cbn [negb].
-  cbn [fill_packet_reader]. fold (rd w). rewrite Hna, (fresh_rb (rd w) Hrd Hrp Hcap). unfold rd. rewrite set_reader_id, upd_sess_id.
-  change (1 =? 0) with false. cbv iota.
+  unfold fill_packet_reader. cbn [fill_go]. fold (rd w). rewrite Hna, (fresh_rb (rd w) Hrd Hrp Hcap). unfold rd. rewrite set_reader_id, upd_sess_id.
+  change (1 =? 0) with false. cbv iota. change (timer_fired false ?dd ?ww) with false. cbv iota.
   destruct (io_read_timeout 1 t w ltac:(discriminate) Hs Hi Hlt Hwt) as [w1 [Er [S1 [C1 [Q1 [N1 [L1 [W1 _]]]]]]]].
   rewrite Er.
   rewrite wait_unfold. unfold drive_packet. rewrite L1, Hl. cbn [negb]. rewrite drive_loop_unfold.
@@ -347,18 +347,21 @@ Proof.
   - rewrite deliver_bt. reflexivity.
 Qed.
 
-Lemma fill_bt : forall fuel dl w, bt (fst (fill_packet_reader fuel dl w)) = bt w.
+Lemma fill_go_bt : forall fuel y dl w, bt (fst (fill_go fuel y dl w)) = bt w.
 Proof.
-  induction fuel as [|f IH]; intros dl w; cbn [fill_packet_reader]; [reflexivity|].
+  induction fuel as [|f IH]; intros y dl w; cbn [fill_go]; [reflexivity|].
   destruct (packet_available _); [reflexivity|].
   destruct (receive_buffer (s_reader (w_sess w))) as [r' ow]. destruct ow as [win|]; [|reflexivity].
   set (w0 := upd_sess w (set_reader (w_sess w) r')).
   destruct (N.eqb win 0); [reflexivity|].
+  destruct (timer_fired y dl w0); [reflexivity|].
   destruct (io_read win dl w0) as [w1 r] eqn:Ei.
   pose proof (io_read_bt win dl w0) as Hg. rewrite Ei in Hg. cbn [fst] in Hg.
   destruct r as [d| | |]; cbn [fst]; try exact Hg.
   destruct d as [|x t]; [exact Hg|]. rewrite IH. exact Hg.
 Qed.
+Lemma fill_bt : forall fuel dl w, bt (fst (fill_packet_reader fuel dl w)) = bt w.
+Proof. intros. apply fill_go_bt. Qed.
 
 (* PollReads.wait_reads_arrived_packet with the timers in any state that neither fires nor queues now *)
 Lemma wait_reads_arrived_packet_gen : forall f w h rl body t,
